@@ -171,14 +171,16 @@ func (c *ChoiceExpr) String() string {
 
 // NullableVisit recursively determines whether an object is nullable.
 func (c *ChoiceExpr) NullableVisit(rules map[string]*Rule) bool {
+	// Every alternative has to be visited: InitialNames reads the flags
+	// computed inside all of them.
+	nullable := false
 	for _, alt := range c.Alternatives {
 		if alt.NullableVisit(rules) {
-			c.Nullable = true
-			return true
+			nullable = true
 		}
 	}
-	c.Nullable = false
-	return false
+	c.Nullable = nullable
+	return nullable
 }
 
 // IsNullable returns the nullable attribute of the node.
@@ -237,8 +239,14 @@ func (r *RecoveryExpr) String() string {
 
 // NullableVisit recursively determines whether an object is nullable.
 func (r *RecoveryExpr) NullableVisit(rules map[string]*Rule) bool {
-	r.Nullable = r.Expr.NullableVisit(rules) || r.RecoverExpr.NullableVisit(rules)
-	return r.Nullable
+	// Both expressions have to be visited: InitialNames reads the flags
+	// computed inside both of them.
+	nullable := r.Expr.NullableVisit(rules)
+	if r.RecoverExpr.NullableVisit(rules) {
+		nullable = true
+	}
+	r.Nullable = nullable
+	return nullable
 }
 
 // IsNullable returns the nullable attribute of the node.
@@ -466,6 +474,9 @@ func (a *AndExpr) String() string {
 
 // NullableVisit recursively determines whether an object is nullable.
 func (a *AndExpr) NullableVisit(rules map[string]*Rule) bool {
+	// The expression itself is always nullable, but the flags below it are
+	// read by InitialNames and have to be computed.
+	a.Expr.NullableVisit(rules)
 	return true
 }
 
@@ -503,6 +514,9 @@ func (n *NotExpr) String() string {
 
 // NullableVisit recursively determines whether an object is nullable.
 func (n *NotExpr) NullableVisit(rules map[string]*Rule) bool {
+	// The expression itself is always nullable, but the flags below it are
+	// read by InitialNames and have to be computed.
+	n.Expr.NullableVisit(rules)
 	return true
 }
 
@@ -540,6 +554,9 @@ func (z *ZeroOrOneExpr) String() string {
 
 // NullableVisit recursively determines whether an object is nullable.
 func (z *ZeroOrOneExpr) NullableVisit(rules map[string]*Rule) bool {
+	// The expression itself is always nullable, but the flags below it are
+	// read by InitialNames and have to be computed.
+	z.Expr.NullableVisit(rules)
 	return true
 }
 
@@ -577,6 +594,9 @@ func (z *ZeroOrMoreExpr) String() string {
 
 // NullableVisit recursively determines whether an object is nullable.
 func (z *ZeroOrMoreExpr) NullableVisit(rules map[string]*Rule) bool {
+	// The expression itself is always nullable, but the flags below it are
+	// read by InitialNames and have to be computed.
+	z.Expr.NullableVisit(rules)
 	return true
 }
 
@@ -614,12 +634,13 @@ func (o *OneOrMoreExpr) String() string {
 
 // NullableVisit recursively determines whether an object is nullable.
 func (o *OneOrMoreExpr) NullableVisit(rules map[string]*Rule) bool {
-	return false
+	// One or more repetitions of a nullable expression are nullable.
+	return o.Expr.NullableVisit(rules)
 }
 
 // IsNullable returns the nullable attribute of the node.
 func (o *OneOrMoreExpr) IsNullable() bool {
-	return false
+	return o.Expr.IsNullable()
 }
 
 // InitialNames returns names of nodes with which an expression can begin.
